@@ -516,3 +516,36 @@ add("C05", "benign: replace args[0] by seq_get(args, 0)", "sqlglot/parsers/bigqu
 add("C05", "benign: raise a new ParseError subclass", P,
     "    def _parse_command(self) -> exp.Command:\n        self._warn_unsupported()",
     "    def _parse_command(self) -> exp.Command:\n        if self.max_nodes == -2:\n            raise ParseError(\"x\")\n        self._warn_unsupported()", "silent")
+
+# ------------------------------------------------------------------------------- C09
+QUERY = "sqlglot/expressions/query.py"
+add("C09", "builder embeds self before maybe_copy", QUERY,
+    "        instance = maybe_copy(self, copy)\n        if not isinstance(alias, Expr):\n            alias = TableAlias(this=to_identifier(alias)) if alias else None\n\n        return Subquery(this=instance, alias=alias)",
+    "        if not isinstance(alias, Expr):\n            alias = TableAlias(this=to_identifier(alias)) if alias else None\n\n        return Subquery(this=self, alias=alias)", "C09.a")
+add("C09", "builder mutates self directly", QUERY,
+    "        this = maybe_copy(self, copy)\n        inner = this.unnest()",
+    "        self.set(\"alias\", None)\n        this = maybe_copy(self, copy)\n        inner = this.unnest()", "C09.a")
+add("C09", "builder passes self on with copy=False", CORE,
+    "        return not_(self, copy=copy)", "        return not_(self, copy=False)", "C09.a")
+add("C09", "generate() no longer copies its argument", G,
+    "        if copy:\n            expression = expression.copy()\n\n        expression = self.preprocess(expression)",
+    "        expression = self.preprocess(expression)", "C09.b")
+add("C09", "generate() defaults to copy=False", G,
+    "    def generate(self, expression: exp.Expr, copy: bool = True) -> str:", "    def generate(self, expression: exp.Expr, copy: bool = False) -> str:", "C09.b")
+add("C09", "optimize() hands the caller's tree to the rules", "sqlglot/optimizer/optimizer.py",
+    "    optimized = exp.maybe_parse(expression, dialect=dialect, copy=True)", "    optimized = exp.maybe_parse(expression, dialect=dialect, copy=False)", "C09.b")
+add("C09", "Expression.sql stops threading copy", CORE,
+    "        return Dialect.get_or_raise(dialect).generate(self, copy=copy, **opts)", "        return Dialect.get_or_raise(dialect).generate(self, copy=False, **opts)", "C09.b")
+add("C09", "__deepcopy__ shares the meta dict", CORE,
+    "                copy._meta = deepcopy(node._meta)", "                copy._meta = node._meta", "C09.b")
+add("C09", "replace_tables ignores its copy flag", "sqlglot/expressions/builders.py",
+    "    return expression.transform(_replace_tables, copy=copy)", "    return expression.transform(_replace_tables, copy=False)", "C09.b")
+add("C09", "copy=False on a borrowed tree in diff-like helper code", "sqlglot/schema.py",
+    "def ensure_schema(\n", "def _verif_bad(table: exp.Table) -> exp.Expr:\n    return table.transform(lambda n: n, copy=False)\n\n\ndef ensure_schema(\n", "C09.c")
+add("C09", "identifier_sql starts mutating its argument", "sqlglot/generators/tsql.py",
+    "        identifier = super().identifier_sql(expression)\n", "        expression.set(\"quoted\", True)\n        identifier = super().identifier_sql(expression)\n", "C09.c")
+add("C09", "benign: rename instance local", QUERY,
+    "        instance = maybe_copy(self, copy)\n        if not isinstance(alias, Expr):\n            alias = TableAlias(this=to_identifier(alias)) if alias else None\n\n        return Subquery(this=instance, alias=alias)",
+    "        inst = maybe_copy(self, copy)\n        if not isinstance(alias, Expr):\n            alias = TableAlias(this=to_identifier(alias)) if alias else None\n\n        return Subquery(this=inst, alias=alias)", "silent")
+add("C09", "benign: copy=False on a freshly built node", "sqlglot/schema.py",
+    "def ensure_schema(\n", "def _verif_ok() -> exp.Expr:\n    node = exp.Table(this=exp.to_identifier(\"t\"))\n    return node.transform(lambda n: n, copy=False)\n\n\ndef ensure_schema(\n", "silent")
